@@ -9,7 +9,8 @@ S=/verif/seeded/$NAME
 export GOFLAGS=-mod=mod GOPROXY=off GOSUMDB=off GOTOOLCHAIN=local
 WT=$(mktemp -d /tmp/seedwtXXXX); rmdir $WT
 git -C /repo worktree add --detach $WT HEAD -q || exit 2
-cleanup() { git -C /repo worktree remove --force $WT 2>/dev/null; git -C /repo checkout -- . 2>/dev/null; }
+# evidence/ is rewritten by every check; what a run against a seeded tree writes must not be left behind (or committed)
+cleanup() { git -C /repo worktree remove --force $WT 2>/dev/null; git -C /repo checkout -- . 2>/dev/null; git -C /verif checkout -- evidence 2>/dev/null; }
 trap cleanup EXIT
 cd $WT
 cp $S/demo_test.go zz_seed_demo_test.go
